@@ -10,7 +10,7 @@ import json
 from hypothesis import strategies as st
 
 from vlib import gen, ring
-from vlib.build import make_cds, make_protocluster, make_record, make_subregion
+from vlib.build import make_cds, make_protocluster, make_record, make_subregion, to_loc
 from vlib.runner import Violation, code_under_test, digest
 
 PROPERTY_ID = "C06"
@@ -331,6 +331,14 @@ def _make_proto(spec: dict):
                              neighbourhood=spec.get("neighbourhood", 5))
 
 
+def _make_sub(spec: dict):
+    """ a SubRegion, or the sideloaded flavour (the only kind users can place anywhere, origin included) """
+    if spec.get("sideloaded"):
+        from antismash.common.secmet.features.subregion import SideloadedSubRegion
+        return SideloadedSubRegion(to_loc(spec["loc"]), "verif", label="side", extra_qualifiers={"note_x": ["y"]})
+    return make_subregion(spec["loc"])
+
+
 def _make_candidate(spec: dict, protos: list, wrap_point):
     from antismash.common.secmet.features import CandidateCluster
     kind = CandidateCluster.kinds.from_string(spec.get("kind", "single"))
@@ -356,7 +364,7 @@ def _build_areas(spec: dict, record, info) -> None:
     pending_candidates = []
     for area in spec["areas"]:
         if area["t"] == "sub":
-            sub = make_subregion(area["loc"])
+            sub = _make_sub(area)
             _run("add_area_total", lambda s=sub: record.add_subregion(s), info)
         elif area["t"] == "proto":
             proto = _make_proto(area)
@@ -536,7 +544,7 @@ class History:
             self.protos.append(step)
             self.cands_complete = False
         elif op == "add_subregion":
-            sub = make_subregion(step["loc"])
+            sub = _make_sub(step)
             _run("add_area_total", lambda: record.add_subregion(sub), self._info(op))
             self.subs.append(step)
             if self.have_regions:
@@ -626,7 +634,7 @@ class History:
         for spec in self.protos:
             fresh.add_protocluster(_make_proto(spec))
         for spec in self.subs:
-            fresh.add_subregion(make_subregion(spec["loc"]))
+            fresh.add_subregion(_make_sub(spec))
         try:
             if self.have_cands:
                 fresh.create_candidate_clusters()
@@ -824,7 +832,7 @@ def _area_spec(draw, arc: list, length: int, mode: str) -> dict:
                                   else ["sub", "proto", "proto"]))
     if choice == "sub":
         strand = 1 if crossing else draw(st.sampled_from([1, 1, None]))
-        return {"t": "sub", "loc": _arc_loc(arc, length, strand)}
+        return {"t": "sub", "loc": _arc_loc(arc, length, strand), "sideloaded": draw(st.booleans())}
     if choice == "proto":
         return dict(draw(_proto_spec(arc, length)), t="proto")
     if choice == "cand" or arc[1] < 2:
@@ -945,7 +953,7 @@ def history_specs(draw):
             arc = draw(area_arc(length, circular, arcs))
             arcs.append(arc)
             strand = 1 if arc[0] + arc[1] > length else draw(st.sampled_from([1, 1, None]))
-            steps.append({"op": op, "loc": _arc_loc(arc, length, strand)})
+            steps.append({"op": op, "loc": _arc_loc(arc, length, strand), "sideloaded": draw(st.booleans())})
             subs += 1
         else:
             steps.append({"op": op})
@@ -1043,7 +1051,8 @@ def machine_factory(stats):
             arc = self._arc(data)
             crossing = arc[0] + arc[1] > self.model.length
             strand = 1 if crossing else data.draw(st.sampled_from([1, 1, None]), label="strand")
-            self._do({"op": "add_subregion", "loc": _arc_loc(arc, self.model.length, strand)})
+            self._do({"op": "add_subregion", "loc": _arc_loc(arc, self.model.length, strand),
+                      "sideloaded": data.draw(st.booleans(), label="sideloaded")})
 
         # ---- creation
         @precondition(lambda self: self.model is not None and not self.dead and self.model.protos
@@ -1098,7 +1107,9 @@ def machine_factory(stats):
 
 
 def run(ctx) -> None:
-    ctx.enum("layout_enum", enum_layouts(ctx.pick(6, 8), ctx.pick(4, 5)), shards=ctx.pick(8, 16))
-    ctx.hyp("layout", layout_specs(), max_examples=ctx.pick(3000, 60000), shards=ctx.pick(8, 16))
-    ctx.stateful("history", machine_factory, max_examples=ctx.pick(160, 3200), steps=50, shards=ctx.pick(8, 16))
-    ctx.hyp("history_mix", history_specs(), max_examples=ctx.pick(800, 16000), shards=ctx.pick(8, 16))
+    ctx.extra["bounds"] = {"layout_enum": {"max_record_length": ctx.pick(6, 9), "areas_up_to_3_for_all_lengths": True,
+                                           "four_areas_up_to_length": ctx.pick(4, 5)}}
+    ctx.enum("layout_enum", enum_layouts(ctx.pick(6, 9), ctx.pick(4, 5)), shards=ctx.pick(8, 16))
+    ctx.hyp("layout", layout_specs(), max_examples=ctx.pick(3000, 100000), shards=ctx.pick(8, 16))
+    ctx.stateful("history", machine_factory, max_examples=ctx.pick(160, 4800), steps=50, shards=ctx.pick(8, 16))
+    ctx.hyp("history_mix", history_specs(), max_examples=ctx.pick(800, 24000), shards=ctx.pick(8, 16))
